@@ -1,6 +1,7 @@
 import TlsProofs.RecordAccept
 import TlsProofs.RecordConn
 import TlsProofs.RecordDemo
+import TlsModel.RecordTie
 /-
   C02 — a record is accepted only if it is exactly what the peer sent next.
 
@@ -408,6 +409,91 @@ theorem no_skip_outside_window {S} (P : Prims S) (c : Cfg) (rv : Recv S) (h : Re
     all_goals first
       | (cases hok; done)
       | (simp only [RecvResult.ok.injEq] at hok; rw [← hok.1])
+
+open Tls.Gen Tls.Rec.Tie
+
+/-! ## tie by regeneration (TlsModel/Gen/Record.lean): the authenticated constructions of the source
+are the ones `macInput_injective`, `aad_injective` and `nonce_injective_in_seq` are about -/
+/-- the `mac.update(…)` sequence of `calculateMAC`, interpreted field by field, IS `macInput`
+    (sequence number, type, [version], length high / low, data — in this order) -/
+theorem gen_mac_input_fields_match_model (seq : Nat) (t : UInt8) (c : Cfg) (data : Bytes) :
+    interpMac Record.macFields seq t c data = some (macInput seq t c data) ∧
+    Record.macResult = ["return bytearray(mac.digest())"] := by
+  refine ⟨?_, by decide⟩
+  have hf : Record.macFields = ["compatHMAC(seqnumBytes)", "compatHMAC(bytearray([contentType]))",
+      "[self.version != (3, 0)] compatHMAC(bytearray([self.version[0]]))",
+      "[self.version != (3, 0)] compatHMAC(bytearray([self.version[1]]))",
+      "compatHMAC(bytearray([len(data) // 256]))", "compatHMAC(bytearray([len(data) % 256]))", "compatHMAC(data)"] := by
+    decide +kernel
+  rw [hf]
+  have h1 : data.length >>> 8 = data.length / 256 := by rw [Nat.shiftRight_eq_div_pow]
+  have h2 : data.length &&& 0xff = data.length % 256 := Nat.and_two_pow_sub_one_eq_mod _ 8
+  unfold interpMac macInput macHeader
+  simp only [List.mapM_cons, List.mapM_nil, macField, Option.pure_def, Option.bind_eq_bind, Option.bind_some, Option.map_some, h1, h2]
+  cases isSsl3 c.vmaj c.vmin <;> simp
+
+
+/-- the additional-data expressions of `_encryptThenSeal` / `_decryptAndUnseal` are `aad12` / `aad13`
+    (the receiver uses the header it was handed), with the plaintext / output length expressions and
+    the explicit-nonce handling the model has -/
+theorem gen_aad_matches_model (seq : Nat) (t : UInt8) (c : Cfg) (hv : Nat × Nat) (plen : Nat) :
+    Record.aadSend.mapM aadKindOf = some [.tls12, .tls13] ∧ Record.aadRecv.mapM aadKindOf = some [.tls12, .headerWrite] ∧
+    AadKind.tls12.eval seq t c hv plen = aad12 seq t c.vmaj c.vmin plen ∧
+    AadKind.tls13.eval seq t c hv plen = aad13 t c.recVer.1 c.recVer.2 plen ∧
+    AadKind.headerWrite.eval seq t c hv plen = aad13 t hv.1 hv.2 plen ∧
+    Record.outLenSend = ["[not(not self._is_tls13_plus())] len(buf) + self._writeState.encContext.tagLength"] ∧
+    Record.plainLenRecv = ["[not self._is_tls13_plus()] len(buf) - self._readState.encContext.tagLength"] ∧
+    Record.sealSend = ["self._writeState.encContext.seal(nonce, buf, authData)",
+      "['aes' in self._writeState.encContext.name and (not self._is_tls13_plus())] seqNumBytes + buf"] ∧
+    Record.nonceRecv = ["['aes' in self._readState.encContext.name and (not self._is_tls13_plus())] self._readState.fixedNonce + buf[:explicitNonceLength]",
+      "[not('aes' in self._readState.encContext.name and (not self._is_tls13_plus()))] self._getNonce(self._readState, seqnumBytes)"] := by
+  refine ⟨by decide +kernel, by decide +kernel, ?_, ?_, ?_, by decide +kernel, by decide +kernel, by decide +kernel, by decide +kernel⟩
+  · simp [AadKind.eval, aad12, be16]
+  · simp [AadKind.eval, aad13, be16]
+  · simp [AadKind.eval, aad13, be16]
+
+
+/-- `_getNonce` as it is written computes the model's `nonce` -/
+theorem gen_nonce_matches_model (c : Cfg) (seq : Nat) (h : c.xorNonce = true → 8 ≤ c.fixedNonce.length) :
+    nonceRecognised Record.nonceCond Record.nonce = true ∧ nonceRecognisedEval c seq = some (nonce c seq) := by
+  refine ⟨by decide +kernel, ?_⟩
+  unfold nonceRecognisedEval nonce
+  unfold Cfg.xorNonce at h ⊢
+  cases hx : ((c.nameIsChacha && c.fixedNonce.length == 12) || c.is13)
+  · simp
+  · have := h hx
+    have : ¬ c.fixedNonce.length < 8 := by omega
+    simp [this]
+
+
+/-- `_calcTLS1_3KeyUpdate`, evaluated symbolically over an abstract HKDF-Expand-Label: the secret
+    handed back (and stored by the caller) is the NEW one, key and IV are derived from it, the state
+    is a fresh ConnectionState (sequence number 0); and `calcTLS1_3KeyUpdate_sender/_reciever`
+    ratchet, per role, the secret of the direction whose state they replace -/
+theorem gen_keyupdate_returns_new_secret {α} (H : α → String → α) (s : α) :
+    keyUpdateEval H s Record.keyUpdate =
+      some (H s "traffic upd", H s "traffic upd", H s "traffic upd", true) ∧
+    keyUpdateRoles = modelKeyUpdateRoles := by
+  refine ⟨?_, by decide +kernel⟩
+  have e : Record.keyUpdate.take 9 = [
+   ("_calcTLS1_3KeyUpdate", "(prf_name, prf_length)", "('sha384', 48) if cipherSuite in CipherSuite.sha384PrfSuites else ('sha256', 32)"),
+   ("_calcTLS1_3KeyUpdate", "(key_length, iv_length, cipher_func)", "self._getCipherSettings(cipherSuite)"),
+   ("_calcTLS1_3KeyUpdate", "iv_length", "12"),
+   ("_calcTLS1_3KeyUpdate", "new_app_secret", "HKDF_expand_label(app_secret, b'traffic upd', b'', prf_length, prf_name)"),
+   ("_calcTLS1_3KeyUpdate", "new_state", "ConnectionState()"),
+   ("_calcTLS1_3KeyUpdate", "new_state.macContext", "None"),
+   ("_calcTLS1_3KeyUpdate", "new_state.encContext", "cipher_func(HKDF_expand_label(new_app_secret, b'key', b'', key_length, prf_name), None)"),
+   ("_calcTLS1_3KeyUpdate", "new_state.fixedNonce", "HKDF_expand_label(new_app_secret, b'iv', b'', iv_length, prf_name)"),
+   ("_calcTLS1_3KeyUpdate", "return", "(new_app_secret, new_state)")] := by decide +kernel
+  have hsplit : Record.keyUpdate = Record.keyUpdate.take 9 ++ Record.keyUpdate.drop 9 := (List.take_append_drop 9 _).symm
+  rw [hsplit, e]
+  simp [keyUpdateEval, keyUpdateEval.go]
+
+
+/-- every protect / unprotect function draws its sequence number from the state of its own
+    direction, once, under the guard the model has; `getSeqNumBytes` is 8 bytes, post-increment -/
+theorem gen_seq_use_matches_model : Record.seqUse = modelSeqUse := by decide +kernel
+
 
 /-! ## non-vacuity -/
 
